@@ -2,6 +2,7 @@ package props
 
 import (
 	"fmt"
+	"strconv"
 	"strings"
 
 	"github.com/osteele/liquid"
@@ -15,7 +16,7 @@ func init() {
 	core.Register(&core.Prop{
 		ID:    "C08",
 		Level: "exploration",
-		Rule: "(1) EXHAUSTIVE index grid: array length 0..5 x index -7..7 and the non-integer indices \"0\", \"x\", nil, true, [0], as literal and as variable, plus first/last/size; PRNG lookup chains (depth <= 5: property, bracket, index, through nil/scalars/missing keys, size with and without a real 'size' key) over nested PRNG bindings, against the reference evaluator; the same in strict-variables mode (error iff the final value is nil); (2) pipelines x | f: a, b | g against their assign-decomposition (metamorphic, every filter family); (3) for every registered filter: one argument more than it declares is an error, and unknown filter names are errors; (4) every generated object/tag printed in 6 whitespace styles (none, spaces, tabs, newlines, CRLF, mixed) must give one result. Non-trivial = the expression has at least one lookup step or filter; distinct = distinct (expression source, bindings).",
+		Rule: "(1) EXHAUSTIVE index grid: array length 0..5 x index -7..7 and the non-integer indices \"0\", \"x\", nil, true, [0], as literal and as variable, plus first/last/size; PRNG lookup chains (depth <= 5: property, bracket, index, through nil/scalars/missing keys, size with and without a real 'size' key) over nested PRNG bindings, against the reference evaluator; the same in strict-variables mode (error iff the final value is nil); (2) pipelines x | f: a, b | g against their assign-decomposition (metamorphic, every filter family); (3) for every registered filter: one argument more than it declares is an error, and unknown filter names are errors; (3b) literal spellings: integer literals with 0..3 leading zeros and either sign as object, filter argument, comparison operand, index and range bound, float literals with leading/trailing zeros, string literals containing backslashes and delimiter characters in both quote styles (a literal denotes its decimal value / exactly its characters); (4) every generated object/tag printed in 6 whitespace styles (none, spaces, tabs, newlines, CRLF, mixed) must give one result. Non-trivial = the expression has at least one lookup step or filter; distinct = distinct (expression source, bindings).",
 		Exhaustive: func(string) bool { return true },
 		Assumptions: []string{
 			"float indices, non-string indices into maps, size of a string as a property, printing of maps: not asserted",
@@ -185,6 +186,61 @@ func runC08(c *core.Ctx) {
 				expectOut(c, e, "{{ h[\""+l+"\"] }}", map[string]any{"h": map[string]any{l: "v:" + l}}, "v:"+l, "literal-whitespace-key", "a string literal used as a key must denote itself", nil)
 				expectOut(c, e, "{% if \""+l+"\" == s %}same{% else %}different{% endif %}", map[string]any{"s": l}, "same", "literal-whitespace-compare", "a string literal must denote itself in a comparison", nil)
 				c.Distinct("wslit", l)
+			}
+		}
+	}
+	// ---- numeric literals are decimal however they are spelled; string literals have no escapes ----------------
+	if c.Shard == 1%c.NShards && c.Begin("literal-spelling family") {
+		arr := make([]any, 20)
+		for i := range arr {
+			arr[i] = fmt.Sprintf("e%d", i)
+		}
+		for _, n := range []int64{0, 1, 7, 8, 9, 10, 17, 19, 64, 89, 100, 777, 1234567} {
+			for z := 0; z <= 3; z++ {
+				for _, neg := range []bool{false, true} {
+					if neg && n == 0 {
+						continue // -0: the sign of zero is not stated
+					}
+					lit, val := strings.Repeat("0", z)+fmt.Sprint(n), n
+					if neg {
+						lit, val = "-"+lit, -n
+					}
+					what := "an integer literal denotes its decimal value, leading zeros or not"
+					expectOut(c, e, "{{ "+lit+" }}", nil, fmt.Sprint(val), "literal-int-spelling", what, nil)
+					if n > 1000 {
+						// how large sums and floats are printed (exponent notation) is not this property's business
+						expectOut(c, e, "{% assign v = "+lit+" %}{{ v }}", nil, fmt.Sprint(val), "literal-int-spelling-arg", what, nil)
+						continue
+					}
+					expectOut(c, e, "{{ 1 | plus: "+lit+" }}|{% assign v = "+lit+" %}{{ v }}", nil, fmt.Sprintf("%d|%d", val+1, val), "literal-int-spelling-arg", what, nil)
+					expectOut(c, e, "{% if "+lit+" == n %}same{% else %}different{% endif %}", map[string]any{"n": val}, "same", "literal-int-spelling-compare", what, nil)
+					if val >= 0 && val < 20 {
+						expectOut(c, e, "{{ a["+lit+"] }}|{% for i in ("+lit+".."+lit+") %}{{ i }}{% endfor %}", map[string]any{"a": arr}, fmt.Sprintf("e%d|%d", val, val), "literal-int-spelling-index", what, nil)
+					}
+					// floats
+					for _, frac := range []string{"5", "50", "25", "0"} {
+						fl := lit + "." + frac
+						f, _ := strconv.ParseFloat(fl, 64)
+						if f == 0 && neg {
+							continue
+						}
+						expectOut(c, e, "{{ "+fl+" }}", nil, gen.FormatFloat(f), "literal-float-spelling", "a float literal denotes its decimal value", nil)
+					}
+					c.Distinct("intlit", lit)
+					c.Obs("literal_spelling_cases", 1)
+				}
+			}
+		}
+		for _, l := range []string{`a\b`, `a\tb`, `a\n`, `\\`, `\`, `c:\dir\`, `\x41`, `\u00e9`, `100%`, `a\'b`, `{`, `}`, `%`, `a|b`, `a:b,c`} {
+			for _, q := range []string{"\"", "'"} {
+				if strings.Contains(l, q) {
+					continue
+				}
+				what := "a string literal denotes exactly the characters between its quotes (Liquid has no escape sequences)"
+				expectOut(c, e, "{{ "+q+l+q+" }}", nil, l, "literal-string-spelling", what, nil)
+				expectOut(c, e, "{{ 'x' | append: "+q+l+q+" | size }}|{% if "+q+l+q+" == s %}same{% else %}different{% endif %}", map[string]any{"s": l}, fmt.Sprintf("%d|same", 1+ref.RuneLen(l)), "literal-string-spelling-arg", what, nil)
+				c.Distinct("strlit", q+l)
+				c.Obs("literal_spelling_cases", 1)
 			}
 		}
 	}
